@@ -16,7 +16,7 @@ Section Run.
 
   (* where the counter of an edit run starts *)
   Inductive start_of (rc : runcfg) (files : list (list N)) (lk : lockst) (o : oracle) : N -> Prop :=
-  | so_cached : forall s, cached_id rc lk = Some s -> start_of rc files lk o s
+  | so_cached : forall L, cached_id rc lk = Some L -> start_of rc files lk o (N.max L start_id)
   | so_scanned : forall rs s miss,
       cached_id rc lk = None ->
       pass_nextid finder (rc_cfg rc) (o_stop1 o) (o_rfail1 o) files 0 [] = POk rs ->
@@ -114,10 +114,10 @@ Section Run.
 
   Lemma start_bounds rc files lk o s :
     start_of rc files lk o s ->
-    (forall L, cached_id rc lk = Some L -> 1 <= L <= u32max) ->
+    (forall L, cached_id rc lk = Some L -> L <= u32max) ->
     1 <= s <= u32max.
   Proof.
-    intros Hs Hlock. destruct Hs as [s Hc|rs s miss Hc Hp Hr Hm]; [apply Hlock; exact Hc|].
+    intros Hs Hlock. destruct Hs as [L Hc|rs s miss Hc Hp Hr Hm]; [specialize (Hlock L Hc); lia|].
     split; [eapply nextid_reduce_above; eauto|].
     unfold nextid_reduce in Hr. destruct (nextid_reduce_go rs 0 0) as [mx ms].
     destruct (mx =? 0); inversion Hr; subst; [exact start_le_max|].
@@ -126,7 +126,7 @@ Section Run.
 
   Theorem edit_ids_unique_in_range rc files lk o :
     files <> [] ->
-    (forall L, cached_id rc lk = Some L -> 1 <= L <= u32max) ->
+    (forall L, cached_id rc lk = Some L -> L <= u32max) ->
     let out := run_edit P finder start_id rc (Some files) lk o in
     NoDup (map id3 (ro_ids out)) /\
     (forall x, In x (ro_ids out) -> 1 <= id3 x /\ id3 x < u32max) /\
@@ -158,7 +158,7 @@ Section Run.
       destruct (start_above_existing rc files lk o s Hs Hc) as [_ Habove].
       destruct (Habove id Hex) as [H|H]; lia.
     - intros L Hc Hahead x id Hx Hex. destruct (Hlt x Hx) as [H1 H2].
-      destruct Hs as [s Hc'|rs s miss Hc' _ _ _]; [|congruence].
+      destruct Hs as [L' Hc'|rs s miss Hc' _ _ _]; [|congruence].
       rewrite Hc in Hc'. inversion Hc'; subst. specialize (Hahead id Hex). lia.
   Qed.
 
@@ -449,17 +449,17 @@ Section Run.
     let out := run_edit P finder start_id rc (Some files) lk o in
     let wf := apply_effs (mkWorld files [] lk) (ro_effs out) in
     ro_exit out = XOk /\ ro_ids out = [] /\ w_src wf = files /\
-    (w_lock wf = lk \/ exists L, lk = LValid L /\ (w_lock wf = LValid L \/ w_lock wf = LCorrupt)).
+    (w_lock wf = lk \/ exists L, lk = LValid L /\ (w_lock wf = LValid (N.max L start_id) \/ w_lock wf = LCorrupt)).
   Proof.
     intros Hne Hs1 Hs2 Hc1 Hc2 Hnp. cbv zeta. unfold run_edit.
     destruct files as [|b0 fs] eqn:Ef; [congruence|]. rewrite <- Ef in *. clear Hne.
     destruct (cached_id rc lk) as [L|] eqn:Ec.
     - (* cached: the insert pass finds nothing to do; the lock is rewritten with the same value *)
-      pose proof (pass_insert_complete (rc_cfg rc) (o_stop2 o) (o_rfail2 o) (o_fault o) files 0 (mkIst L false 0 [] []))
+      pose proof (pass_insert_complete (rc_cfg rc) (o_stop2 o) (o_rfail2 o) (o_fault o) files 0 (mkIst (N.max L start_id) false 0 [] []))
         as Hp. cbn [Nat.add] in Hp.
       destruct (Hp Hc2 (fun k b Hn => Hnp k b _ Hn)) as (A & B & Cc & D & E & F). clear Hp.
       specialize (F Hs2).
-      destruct (pass_insert P finder (rc_cfg rc) (o_stop2 o) (o_rfail2 o) (o_fault o) files 0 (mkIst L false 0 [] []))
+      destruct (pass_insert P finder (rc_cfg rc) (o_stop2 o) (o_rfail2 o) (o_fault o) files 0 (mkIst (N.max L start_id) false 0 [] []))
         as [st|st|st|st]; cbn in F; try discriminate. cbn [pres_state is_effs is_ctr is_ids is_failure] in *.
       rewrite A, B, Cc, D. cbn [ro_exit ro_ids ro_effs app].
       split; [reflexivity|]. split; [reflexivity|].
